@@ -10,6 +10,11 @@
  *                                                -> ok xml=<res> json=<res> xml2=<res> json2=<res>
  *                                              xml/json: lyd_parse_data with validation (opts | PRESENT); xml2/json2: LYD_PARSE_ONLY,
  *                                              then a separate lyd_validate_all(opts | PRESENT).  <res> = V.<dump> | I.<err>[;<err>]*
+ *   ops <yang-hex> <in.xml> <in.json> <out.xml> <out.json> <notif.xml> <notif.json>                                  [impl only]
+ *                                              the module (the data definitions of a schema repeated as input of rpc zzop, output of
+ *                                              rpc zzoq and body of notification zzev) in a context of its own; every document
+ *                                              through lyd_parse_op(RPC / REPLY / NOTIF) and then lyd_validate_op()
+ *                                                -> ok in.xml=<res> ... ; <res> = V | P.<err> (parser refused) | I.<err> (validation)
  *   leakcheck                                                                                     -> ok <n>
  * <opts>: decimal OR of LYD_VALIDATE_NO_STATE 1, PRESENT 2, MULTI_ERROR 4, OPERATIONAL 8.  <xdsl> is for the model only (the
  * harness gets the same statements through the YANG text).
@@ -157,6 +162,32 @@ route(const struct tp_schema *s, const char *name, const char *doc, LYD_FORMAT f
     lyd_free_all(t);
 }
 
+static void
+op_route(const struct ly_ctx *ctx, const char *name, const char *doc, LYD_FORMAT fmt, enum lyd_type type)
+{
+    struct lyd_node *t = NULL, *op = NULL;
+    struct ly_in *in = NULL;
+    struct tp_buf b = {0};
+    LY_ERR r;
+
+    ly_err_clean((struct ly_ctx *)ctx, NULL);
+    ly_in_new_memory(doc, &in);
+    r = lyd_parse_op(ctx, NULL, in, fmt, type, &t, &op);
+    ly_in_free(in, 0);
+    fprintf(stdout, " %s=", name);
+    if (r) {
+        errs_to_buf(ctx, &b, ";", NULL);
+        fprintf(stdout, "P.%s", b.s ? b.s : "");
+    } else if ((r = lyd_validate_op(t, NULL, type, NULL))) {
+        errs_to_buf(ctx, &b, ";", NULL);
+        fprintf(stdout, "I.%s", b.s ? b.s : "");
+    } else {
+        fputs("V", stdout);
+    }
+    free(b.s);
+    lyd_free_all(t);
+}
+
 int
 main(void)
 {
@@ -184,6 +215,29 @@ main(void)
             tp_schema_summary(s, &b);
             vp_reply(id, "ok %d %s", s->n, b.s ? b.s : "");
             free(b.s);
+            continue;
+        }
+        if (!strcmp(op, "ops") && r.ntok == 10) {
+            static const char *names[] = {"in.xml", "in.json", "out.xml", "out.json", "notif.xml", "notif.json"};
+            char *yang = vp_unhex(r.tok[3], NULL);
+            struct ly_ctx *octx = NULL;
+            int i;
+
+            if (!yang || ly_ctx_new(NULL, 0, &octx) || lys_parse_mem(octx, yang, LYS_IN_YANG, NULL)) {
+                vp_reply(id, "err BadSchema");
+            } else {
+                vp_begin(id, "ok");
+                for (i = 0; i < 6; i++) {
+                    char *doc = vp_unhex(r.tok[4 + i], NULL);
+
+                    if (doc) op_route(octx, names[i], doc, i % 2 ? LYD_JSON : LYD_XML,
+                            i < 2 ? LYD_TYPE_RPC_YANG : i < 4 ? LYD_TYPE_REPLY_YANG : LYD_TYPE_NOTIF_YANG);
+                    free(doc);
+                }
+                vp_end();
+            }
+            free(yang);
+            ly_ctx_destroy(octx);
             continue;
         }
         if (r.ntok < 4 || !(s = tp_schema_get(r.tok[3]))) { vp_reply(id, "err NoSchema"); continue; }
